@@ -16,7 +16,9 @@ on anything else ("untranslatable construct at file:line"): a failure is a broke
   Gen/ClusImp.lean    … of KNNSupervisedOPF._clustering and UnsupervisedOPF._clustering
   Gen/ArcsImp.lean    … of KNNSubgraph.create_arcs and Subgraph.destroy_arcs
   Gen/PdfImp.lean, CutImp.lean, KnnPredImp.lean   … of calculate_pdf, _normalized_cut, the two density `predict`s
-                      (float arithmetic as the uninterpreted operations `Py.FOps`)
+                      (float arithmetic as the uninterpreted operations `Py.FOps`); propagate_labels in ClusImp,
+                      eliminate_maxima_height in PdfImp
+  Gen/SplitImp.lean, PrecompImp.lean   … of split / split_with_index / merge and pre_compute_distance (tools/translate_np.py)
 """
 import ast
 import decimal
@@ -794,6 +796,13 @@ def main():
     err = translate_fn.translate_knnpred(REPO, GEN, consts, write)
     if err:
         notes.append(f"TRANSLATOR-IMP(knn predict): {err}")
+    import translate_np
+    err = translate_np.translate_split(REPO, GEN, write)
+    if err:
+        notes.append(f"TRANSLATOR-IMP(splitter): {err}")
+    err = translate_np.translate_precompute(REPO, GEN, write)
+    if err:
+        notes.append(f"TRANSLATOR-IMP(pre_compute_distance): {err}")
     for n in notes:
         print(n)
     return 0
